@@ -255,6 +255,10 @@ class SimNet:
     def next_time(self):
         return self._heap[0][0] if self._heap else None
 
+    def last_event_time(self):
+        """Time of the last pending network event (None when the network is quiet)."""
+        return max((t for t, _, _ in self._heap), default=None)
+
     def pop_due(self, now, loop):
         """Return [(fn, args)] for the events due at `now`, in (time, seq) order.  One datagram/error per UDP
         transport per call (level-triggered selector + one recvfrom per _read_ready); TCP data chunks for the
